@@ -11,7 +11,7 @@ Decided clauses (structural, necessary conditions):
 """
 import re
 
-from . import lib, shared
+from . import lib, shared, c04, heapmodel
 from .lib import CheckError
 
 
@@ -90,6 +90,18 @@ def run(F, R, ctx):
                    "instruction's opcode is the trampoline, so a global referenced by the first instruction is "
                    "invisible to this scanner" % fn.short(),
                    fn.loc(fn.blocks[sb]["line"]), sample={"scanner": fn.short(), "header_reads": len(hdr)})
+    # ---- R recycler traversal: slot liveness is decided by walking every value reachable from the live globals
+    R.rule("C06.R", "the global-slot recycler's walk is complete: each GlobalSlotRecycler::visit_<kind> reads every "
+                    "handle-bearing field of the kind's payload on every path (same rule as C04.a), and visit_closure "
+                    "scans the closure body on every path")
+    c04.tracing_rule(F, R, "C06.R", ["GlobalSlotRecycler"], heapmodel.handle_bearing(F))
+    vc = F.one(r"for GlobalSlotRecycler\}::visit_closure$")
+    rb = heapmodel.reader_blocks(F, vc, "ByteCodeLambda", "body_exp")
+    cut, _ = vc.every_path_passes_from([0], vc.returns(), rb)
+    R.inst("C06.R", "GlobalSlotRecycler::visit_closure / body scanned on every path", bool(rb) and cut,
+           "GlobalSlotRecycler::visit_closure can return without scanning ByteCodeLambda.body_exp: global slots referenced "
+           "only by that closure's instructions are recycled while the closure is live", vc.loc(), sample=True)
+
     # ---- B rollback
     eng = F.one(r"\{impl Engine\}::raw_program_to_executable$")
     builds = eng.call_blocks(r"\{impl RawProgramWithSymbols\}::build$")
